@@ -23,7 +23,6 @@ Definition decode_rune (r1 r2 : Z) : Z :=
   then Z.lor (Z.shiftl (r1 - utfSurgA) 10) (r2 - utfSurgB) + utfSelf
   else utfRepl.
 
-Definition is_nil {A} (l : list A) : bool := match l with [] => true | _ => false end.
 
 (* First loop of utf16Encode (strict = true) / UTF16EncodeStd (strict = false): the size of
    the output array, starting from n = len(s); in strict mode a zero anywhere but at the last
